@@ -582,3 +582,75 @@ func ruleSortDefaults(p *Program, r *Run, rule string) {
 	check("NullsFirst", "NULLS FIRST", "NULLS LAST")
 	r.Floor(rule, 7)
 }
+
+// ---- C07/statements: Parse looks at every statement; its loop ends only when the tokens are exhausted.
+func ruleC07Statements(p *Program, r *Run) {
+	pkg := p.Parser
+	info := pkg.TypesInfo
+	fd := p.MustFunc(pkg, "Parse")
+	fn := FuncName(pkg, fd)
+	r.Saw(fn)
+	next := FuncObj(pkg, p.MustFunc(pkg, "parser.next"))
+	var loop *ast.ForStmt
+	for _, s := range fd.Body.List {
+		if fs, ok := s.(*ast.ForStmt); ok {
+			loop = fs
+		}
+	}
+	if loop == nil {
+		r.Fail("C07/statements", fn+" statement loop", p.Pos(fd.Pos()), "no statement loop found in Parse")
+		return
+	}
+	var bad []string
+	exits := 0
+	var walk func(n ast.Node, depth int)
+	walk = func(n ast.Node, depth int) {
+		ast.Inspect(n, func(x ast.Node) bool {
+			switch v := x.(type) {
+			case *ast.FuncLit:
+				return false
+			case *ast.ForStmt, *ast.RangeStmt, *ast.SwitchStmt, *ast.TypeSwitchStmt:
+				if x != ast.Node(loop.Body) {
+					// breaks inside nested breakable statements do not leave the statement loop unless labelled
+					ast.Inspect(x, func(y ast.Node) bool {
+						if b, ok := y.(*ast.BranchStmt); ok && b.Tok == token.BREAK && b.Label != nil {
+							bad = append(bad, "labelled break at "+p.Pos(b.Pos()))
+						}
+						if _, ok := y.(*ast.ReturnStmt); ok {
+							bad = append(bad, "return inside the loop at "+p.Pos(y.Pos()))
+						}
+						return true
+					})
+					return false
+				}
+			case *ast.ReturnStmt:
+				bad = append(bad, "return inside the loop at "+p.Pos(v.Pos()))
+			case *ast.BranchStmt:
+				if v.Tok != token.BREAK {
+					return true
+				}
+				exits++
+				// must be the body of `if _, ok := p.next(); !ok { break }`
+				okExit := false
+				if blk, ok := p.Parent(v).(*ast.BlockStmt); ok && len(blk.List) == 1 {
+					if ifs, ok := p.Parent(blk).(*ast.IfStmt); ok && ifs.Body == blk {
+						if as, ok := ifs.Init.(*ast.AssignStmt); ok && len(as.Lhs) == 2 && len(as.Rhs) == 1 {
+							if call, ok := as.Rhs[0].(*ast.CallExpr); ok && Callee(info, call) == next {
+								if un, ok := ast.Unparen(ifs.Cond).(*ast.UnaryExpr); ok && un.Op == token.NOT && objOf(info, un.X) == objOf(info, as.Lhs[1]) {
+									okExit = true
+								}
+							}
+						}
+					}
+				}
+				if !okExit {
+					bad = append(bad, "break at "+p.Pos(v.Pos())+" that is not `if _, ok := p.next(); !ok`")
+				}
+			}
+			return true
+		})
+	}
+	walk(loop.Body, 0)
+	r.Check(len(bad) == 0 && exits >= 1 && loop.Cond == nil, "C07/statements", fn+" statement loop ends only at the end of the tokens", p.Pos(loop.Pos()), "the only exit is `next()` reporting the end of the token stream: empty statements are skipped, every other one is parsed", "Parse's statement loop can end before the token stream is exhausted ("+strings.Join(bad, "; ")+"): statements after that point are dropped without an error")
+	r.Floor("C07/statements", 1)
+}
